@@ -13,6 +13,7 @@ import ChitchatModel.Model.Chitchat
 import ChitchatModel.Lemmas.AL
 import ChitchatModel.Lemmas.Heartbeat
 import ChitchatModel.Props.C07
+import ChitchatModel.Props.C19
 namespace Chitchat
 
 /-- **C16 (bad cluster).** A SYN carrying a different cluster id is answered with `BadCluster` only,
@@ -65,6 +66,20 @@ theorem C16_no_data_in_reply (C : Compressor) (n n' : Node) (cid : Bytes) (diges
 example : ([99] : Bytes) ≠ [99, 50] := by decide
 example : ([99] : Bytes) ≠ [67] := by decide
 example : ([] : Bytes) ≠ [99] := by decide
+
+/-- **C16 (the rejection on the wire).** Whatever the socket sent or failed to send before — its
+reusable send buffer in any state — the answer to a foreign SYN handed to a reachable node is the
+four bytes of `BadCluster` and nothing else, and the node that receives that datagram decodes
+`BadCluster`. -/
+theorem C16_rejection_on_the_wire (C : Compressor) (s : UdpSock) :
+    ∃ s', s.send C .badCluster .peer = .ok (s', some [0x53, 0xB0, 0, 3]) ∧
+      UdpSock.receiveOne C [0x53, 0xB0, 0, 3] = some .badCluster := by
+  have henc : encMsg C .badCluster = .ok [0x53, 0xB0, 0, 3] := by rfl
+  obtain ⟨s', h⟩ := C19_udp_send_exact C s .badCluster .peer _ henc
+  refine ⟨s', ?_, by rfl⟩
+  rw [h]
+  have : (Dest.peer = Dest.peer ∧ ([0x53, 0xB0, 0, 3] : Bytes).length ≤ maxDatagram) := ⟨rfl, by decide⟩
+  rw [if_pos this]
 
 section Network
 open NodeState ClusterState Node
